@@ -5,6 +5,7 @@ from engine import scopeprog, sqfprog
 
 ID = "C03"
 LEVEL = "exploration"
+HANG_IS_VIOLATION = True     # every generated case terminates under the model: no reply (twice, then 3x confirmation) is a violation
 ENGINE = "E-hyp"
 TECHNIQUE = "property-based testing: generated binding/shadowing programs vs. a Python scope model (trace equality + namespace contents)"
 RULE = ("cases = programs of binding operations (plain assignment, private string/array/assignment, params, reads, namespace get/setVariable) "
